@@ -592,6 +592,7 @@ func (i *interpreter) runPath(fn *ssa.Function, prefix []Decision) (res PathResu
 	i.lnArgs, i.expArgs = nil, nil
 	i.axiomSeen = nil
 	i.randDraws = 0
+	i.randLog, i.randLogging, i.randReplay = nil, false, -1
 	i.resetThreads()
 	defer func() {
 		r := recover()
